@@ -29,6 +29,11 @@ pub struct AnimDesc {
     pub states: Vec<Option<Vec<TlDesc>>>,
     pub initial_state: u8,
     pub initial_values: Vals,
+    /// order of the builder calls (must not matter): 0 = from_state, from_values, on...;
+    /// 1 = on..., from_values, from_state; 2 = from_state, on..., from_values;
+    /// bit 2 set = every state first gets a throw-away timeline that the real `on` call replaces
+    #[serde(default)]
+    pub builder_order: u8,
 }
 
 /// grid unit for exactly representable steps: 2^-9 s = 1 953 125 ns
@@ -58,11 +63,30 @@ pub enum AOp {
 
 impl AnimDesc {
     pub fn build(&self) -> Anim {
-        let mut b = StateAnimatorBuilder::<St, PTimeline>::new().from_state(STATES[self.initial_state as usize % NSTATE]).from_values(P::from_vals(&self.initial_values));
+        let init = STATES[self.initial_state as usize % NSTATE];
+        let vals = P::from_vals(&self.initial_values);
+        let order = self.builder_order % 4 % 3;
+        let replace = self.builder_order & 4 != 0;
+        let mut b = StateAnimatorBuilder::<St, PTimeline>::new();
+        if order == 0 {
+            b = b.from_state(init).from_values(vals.clone());
+        } else if order == 2 {
+            b = b.from_state(init);
+        }
         for (i, s) in self.states.iter().enumerate() {
             if let Some(comps) = s {
+                if replace {
+                    // a later `on` for the same state replaces the earlier one
+                    let dummy = TimelineBuilder::build(P::timeline().duration_seconds(7.0).keyframe(P::keyframe(1.0).a(-123.0).b(456.0).c(-789).d(201)));
+                    b = b.on(STATES[i], dummy);
+                }
                 b = b.on(STATES[i], MergedTimeline::of(comps.iter().map(|c| c.build())));
             }
+        }
+        if order == 1 {
+            b = b.from_values(vals).from_state(init);
+        } else if order == 2 {
+            b = b.from_values(vals);
         }
         b.build()
     }
